@@ -198,6 +198,10 @@ fn sources(r: &PortableRegistry) -> (Vec<(String, usize)>, u64) {
     (out.into_iter().filter(|(k, _)| !bad.contains(k)).collect(), skipped)
 }
 
+fn self_chance<R: Rng>(rng: &mut R) -> bool {
+    rng.gen_bool(0.5)
+}
+
 pub fn gen_rules<R: Rng>(rng: &mut R, r: &PortableRegistry, ctx: &mut Ctx) -> Vec<Rule> {
     let (srcs, skipped) = sources(r);
     ctx.count("sources_with_skipped_params_excluded", skipped);
@@ -224,7 +228,14 @@ pub fn gen_rules<R: Rng>(rng: &mut R, r: &PortableRegistry, ctx: &mut Ctx) -> Ve
                 (src_generic.clone(), format!("{y}<{}>", rev.join(", ")), "permuted")
             }
             (4, a) if a >= 1 => (src_generic.clone(), format!("{y}<{}, {}>", sp[0], sp[0]), "repeated"),
-            (5, a) if a >= 1 => (src_generic.clone(), format!("{y}<::z::W<{}>, ::z::V<::z::W<{}>>>", sp[0], sp[sp.len() - 1]), "nested"),
+            (5, a) if a >= 1 => {
+                if self_chance(rng) {
+                    (src_generic.clone(), format!("{y}<::z::W<{}>, ::z::V<::z::W<{}>>>", sp[0], sp[sp.len() - 1]), "nested")
+                } else {
+                    // unqualified single-segment generic types in the target
+                    (src_generic.clone(), format!("{y}<Option<{}>, Vec<(u8, Box<{}>)>, {}>", sp[0], sp[sp.len() - 1], sp[0]), "nested")
+                }
+            }
             (6, a) if a >= 1 => (src_generic.clone(), format!("{y}<{}, u8, ::fixed::Extra>", sp[0]), "fixed-extra"),
             (7, a) if a >= 2 => (src_generic.clone(), format!("{y}<{}>", sp[1]), "fewer"),
             (8, a) if a >= 1 => (src_generic.clone(), format!("{y}<{}, Unrelated>", sp.join(", ")), "more"),
